@@ -1,18 +1,22 @@
---------------------------- MODULE Trace_CoordTimed ---------------------------
-(* Timed variant of Trace_Coordination: the tree additionally has mark / advance / tick / kill edges, a watchdog
+--------------------------- MODULE Trace_Inheritance ---------------------------
+(* Trace_CoordTimed plus priority inheritance (Inheritance.tla): boost / restore / clear edges, post.deps / worder (the recorded order of the wait-for graph),
+   post.boosts (original priority of a boosted operation, 0 = none), post.nboosts, obs.new (operations boosted by this call, in order).
+   The listed-property clauses (C14 / C15) are judged as before on these richer histories; the inheritance clauses (BoostMonotone, NoInversionAfterBoost,
+   RestoreExact, OriginalKept) are reported separately (XF lines): they belong to no listed property.
+   Timed variant of Trace_Coordination: the tree additionally has mark / advance / tick / kill edges, a watchdog
    with timeouts, obs.killed = the operations named in the watchdog's events, and post.phase / flags / age / page
    (normalised to g0 / {} / 0 / 0 for operations that are not active).  Walked with the actions of CoordTimed.tla.  Edge = {act:{op,o,r}, obs:{res,dl,cyc,precyc,victim,raised},
    post:{owner:{r..},hold:{r..},active:<<..>>,acquired:{o..},edges:<<<<w,b,r>>..>>}}.
    dl/cyc = check_deadlock() after the call, precyc = the cycle reported just before a watchdog run.
    blockedOn (ground truth) is carried by TLC from the call results alone (BO below). *)
 EXTENDS Naturals, Sequences, FiniteSets, TLC, Json, IOUtils
-CONSTANTS Ops, Res, Preemptable, HighPrio, MaxHold, NoOne, Strategy, MaxT, StarveT, ProgT, Exempt, Cap
-VARIABLES owner, hold, active, acquired, blockedOn, edges, order, obs, pri, lockpri, phase, flags, age, page, node, pfail, drift
-C == INSTANCE CoordTimed
+CONSTANTS Ops, Res, Preemptable, HighPrio, MaxHold, NoOne, Strategy, MaxT, StarveT, ProgT, Exempt, Cap, NCap
+VARIABLES owner, hold, active, acquired, blockedOn, edges, order, obs, pri, lockpri, phase, flags, age, page, deps, worder, boosts, nboosts, node, pfail, xfail, drift
+C == INSTANCE Inheritance
 F == ndJsonDeserialize(IOEnv.TRACE_FILE)
 E == [k \in 1..(Len(F) - 1) |-> F[k + 1]]
 Kids(n) == F[n + 1].cf .. F[n + 1].cl
-Init == C!TInit /\ node = 0 /\ pfail = {} /\ drift = FALSE
+Init == C!IInit /\ node = 0 /\ pfail = {} /\ xfail = {} /\ drift = FALSE
 SetOf(s) == {s[k] : k \in 1..Len(s)}
 PostOwner(r) == [q \in Res |-> r.post.owner[q]]
 PostHold(r) == [q \in Res |-> r.post.hold[q]]
@@ -39,22 +43,29 @@ PostPhase(r) == [o \in Ops |-> r.post.phase[o]]
 PostFlags(r) == [o \in Ops |-> SetOf(r.post.flags[o])]
 PostAge(r) == [o \in Ops |-> r.post.age[o]]
 PostPage(r) == [o \in Ops |-> r.post.page[o]]
-DAct(a) == CASE a.op = "start"    -> C!TStart(a.o)
-             [] a.op = "acquire"  -> C!TAcquire(a.o, a.r)
-             [] a.op = "release"  -> C!TRelease(a.o, a.r)
-             [] a.op = "complete" -> C!TEnd(a.o, "complete")
-             [] a.op = "abort"    -> C!TEnd(a.o, "abort")
-             [] a.op = "kill"     -> C!Kill(a.o)
-             [] a.op = "mark"     -> C!MarkFlag(a.o)
-             [] a.op = "advance"  -> C!Advance(a.o)
-             [] a.op = "tick"     -> C!Tick
-             [] a.op = "watchdog" -> C!TWatchdog
+PostDeps(r) == [o \in Ops |-> [i \in 1..Len(r.post.deps[o]) |-> <<r.post.deps[o][i][1], r.post.deps[o][i][2]>>]]
+PostBoosts(r) == [o \in Ops |-> r.post.boosts[o]]
+DAct(a) == CASE a.op = "start"    -> C!Lift(C!TStart(a.o))
+             [] a.op = "acquire"  -> C!Lift(C!TAcquire(a.o, a.r))
+             [] a.op = "release"  -> C!Lift(C!TRelease(a.o, a.r))
+             [] a.op = "complete" -> C!Lift(C!TEnd(a.o, "complete"))
+             [] a.op = "abort"    -> C!Lift(C!TEnd(a.o, "abort"))
+             [] a.op = "kill"     -> C!Lift(C!Kill(a.o))
+             [] a.op = "mark"     -> C!Lift(C!MarkFlag(a.o))
+             [] a.op = "advance"  -> C!Lift(C!Advance(a.o))
+             [] a.op = "tick"     -> C!Lift(C!Tick)
+             [] a.op = "watchdog" -> C!Lift(C!TWatchdog)
+             [] a.op = "boost"    -> C!Boost
+             [] a.op = "restore"  -> C!Restore(a.o)
+             [] a.op = "clear"    -> C!ClearAll
 Match(r) == /\ ~r.obs.raised
             /\ owner' = PostOwner(r) /\ hold' = PostHold(r) /\ active' = PostActive(r)
             /\ \A o \in PostActive(r) : acquired'[o] = PostAcq(r)[o]
             /\ edges' = PostEdges(r) /\ blockedOn' = BO(r) /\ obs'.res = r.obs.res
             /\ pri' = PostPri(r) /\ lockpri' = PostLockPri(r)
             /\ phase' = PostPhase(r) /\ flags' = PostFlags(r) /\ age' = PostAge(r) /\ page' = PostPage(r)
+            /\ deps' = PostDeps(r) /\ worder' = r.post.worder /\ boosts' = PostBoosts(r) /\ nboosts' = r.post.nboosts
+            /\ (r.act.op = "boost" => obs'.cyc = r.obs.new)
             /\ (r.act.op = "watchdog" => SetOf(r.obs.killed) = active \ PostActive(r))
             /\ (r.act.op = "watchdog" => obs'.victim = r.obs.victim /\ (r.obs.victim # NoOne => obs'.cyc = r.obs.precyc))
 InCyc(s, R) == \A k \in 1..Len(s) : <<s[k], s[(k % Len(s)) + 1]>> \in R
@@ -77,11 +88,22 @@ Holds(c, r) ==
                               o \notin PostActive(r) /\ \A q \in Res : r.post.owner[q] # o
     [] c = "Untouched" -> /\ (r.act.op \in {"complete", "abort", "release", "kill"}) =>
                               \A q \in Res : owner[q] # r.act.o => (r.post.owner[q] = owner[q] /\ r.post.hold[q] = hold[q])
-                          /\ (r.act.op \in {"watchdog", "mark", "advance", "tick"}) =>
+                          /\ (r.act.op \in {"watchdog", "mark", "advance", "tick", "boost", "restore", "clear"}) =>
                               \A q \in Res : (owner[q] = NoOne \/ (owner[q] \in PostActive(r) /\ owner[q] \notin SetOf(r.obs.killed))) =>
                                  (r.post.owner[q] = owner[q] /\ r.post.hold[q] = hold[q])
     [] c = "HoldConsistent" -> \A q \in Res : (r.post.owner[q] = NoOne <=> r.post.hold[q] = 0)
     [] c = "NoRaise" -> ~r.obs.raised
+RECURSIVE PChain(_, _, _)
+PChain(d, cur, acc) == IF d[cur] = <<>> THEN acc ELSE LET b == d[cur][1][1] IN IF b \in SetOf(acc) THEN acc ELSE PChain(d, b, Append(acc, b))
+XClauses == {"BoostMonotone", "NoInversionAfterBoost", "RestoreExact", "OriginalKept", "OnlyBoostRaises", "GraphOrderAgrees"}
+XHolds(c, r) ==
+  CASE c = "BoostMonotone" -> r.act.op = "boost" => \A o \in Ops : r.post.pri[o] >= pri[o]
+    [] c = "NoInversionAfterBoost" -> r.act.op = "boost" => \A w \in SetOf(r.post.worder) \cap PostActive(r) :
+                                         LET ch == PChain(PostDeps(r), w, <<w>>) IN \A k \in 2..Len(ch) : ch[k] \in PostActive(r) => r.post.pri[ch[k]] >= pri[w]
+    [] c = "RestoreExact" -> (r.act.op = "restore" /\ boosts[r.act.o] # 0) => r.post.pri[r.act.o] = C!Base(r.act.o) /\ r.post.boosts[r.act.o] = 0
+    [] c = "OriginalKept" -> \A o \in Ops : r.post.boosts[o] # 0 => r.post.boosts[o] = C!Base(o)
+    [] c = "OnlyBoostRaises" -> (\E o \in active \cap PostActive(r) : r.post.pri[o] > pri[o]) => r.act.op = "boost"
+    [] c = "GraphOrderAgrees" -> UNION {{<<w, PostDeps(r)[w][i][1], PostDeps(r)[w][i][2]>> : i \in 1..Len(PostDeps(r)[w])} : w \in Ops} = PostEdges(r)
 Conform(k) == LET r == E[k] IN DAct(r.act) /\ Match(r) /\ drift' = FALSE
 Resync(k) ==
   LET r == E[k] IN
@@ -90,10 +112,12 @@ Resync(k) ==
   /\ owner' = PostOwner(r) /\ hold' = PostHold(r) /\ active' = PostActive(r) /\ acquired' = PostAcq(r)
   /\ edges' = PostEdges(r) /\ blockedOn' = BO(r) /\ order' = OrderP(r) /\ pri' = PostPri(r) /\ lockpri' = PostLockPri(r)
   /\ phase' = PostPhase(r) /\ flags' = PostFlags(r) /\ age' = PostAge(r) /\ page' = PostPage(r)
+  /\ deps' = PostDeps(r) /\ worder' = r.post.worder /\ boosts' = PostBoosts(r) /\ nboosts' = r.post.nboosts
   /\ obs' = [op |-> r.act.op, o |-> r.act.o, r |-> r.act.r, res |-> r.obs.res, cyc |-> r.obs.precyc, victim |-> r.obs.victim]
-Step(k) == /\ node' = k /\ pfail' = {c \in Clauses : ~Holds(c, E[k])}
+Step(k) == /\ node' = k /\ pfail' = {c \in Clauses : ~Holds(c, E[k])} /\ xfail' = {c \in XClauses : ~XHolds(c, E[k])}
            /\ (Conform(k) \/ Resync(k))
 Next == \E k \in Kids(node) : Step(k)
 Report == /\ (pfail = {} \/ PrintT(<<"PF", node, pfail>>))
+          /\ (xfail = {} \/ PrintT(<<"XF", node, xfail>>))
           /\ (~drift \/ PrintT(<<"DR", node>>))
 ===============================================================================
